@@ -84,21 +84,26 @@ def body_build(case, ctx):
 def body_mismatch(case, ctx):
     fs = field_arrays(case["fields"], case["n"])
     k = len(fs)
-    j = case["odd"] % k
-    d = case["delta"]
-    ctx.label("k:%d" % k, "odd-first" if j == 0 else "odd-last" if j == k - 1 else "odd-middle", "longer" if d > 0 else "shorter")
+    # every field gets its own change of length (at least one differs from the others): one odd field, several, deviations
+    # that cancel (2, 1, 3), all but one changed ...
+    deltas = [case["deltas"][i % len(case["deltas"])] for i in range(k)]
+    if len(set(deltas)) == 1:
+        deltas[case["odd"] % k] += case["delta"]
+
+    def resize(f, d):
+        if d > 0:
+            return np.concatenate([f, np.zeros((d,) + f.shape[1:], dtype=f.dtype)])
+        return f[:max(len(f) + d, 0)]
+    fs = [resize(f, d) for f, d in zip(fs, deltas)]
+    lens = [len(f) for f in fs]
+    if len(set(lens)) == 1:        # clipping at length 0 may have made them equal again
+        fs[case["odd"] % k] = resize(fs[case["odd"] % k], 1)
+        lens = [len(f) for f in fs]
+    ctx.label("k:%d" % k, "deviating-fields:%d" % sum(1 for l in lens if l != lens[0]), "sum-of-deviations-zero" if sum(l - lens[0] for l in lens) == 0 else "sum-nonzero")
     ctx.nt()
-    f = fs[j]
-    if d > 0:
-        pad = np.zeros((d,) + f.shape[1:], dtype=f.dtype)
-        fs[j] = np.concatenate([f, pad])
-    else:
-        fs[j] = f[:max(len(f) + d, 0)]
-        if len(fs[j]) == len(f):
-            fs[j] = np.concatenate([f, f[:1] if len(f) else np.zeros((1,) + f.shape[1:], dtype=f.dtype)])
     got = lib(lambda: cls(k)(*fs))
     if got.ok:
-        raise Violation("mismatch:accepted", lengths=[len(x) for x in fs])
+        raise Violation("mismatch:accepted", lengths=lens)
 
 
 def body_select(case, ctx):
@@ -274,7 +279,8 @@ def build_case(draw, tier):
 @st.composite
 def mismatch_case(draw, tier):
     fields, n = draw(fields_st(min_k=2))
-    return {"fields": fields, "n": n, "odd": draw(st.integers(0, 3)), "delta": draw(st.sampled_from([1, 2, -1, -2]))}
+    return {"fields": fields, "n": n, "odd": draw(st.integers(0, 3)), "delta": draw(st.sampled_from([1, 2, -1, -2])),
+            "deltas": draw(st.lists(st.sampled_from([0, 0, 1, -1, 2, -2]), min_size=1, max_size=4))}
 
 
 @st.composite
